@@ -152,6 +152,7 @@ func inputsPart(r *vlib.Run) {
 	r.Set("executor_children", p.children)
 	r.Assume = append(r.Assume,
 		"the reference is the repository's own line codec run sequentially; what ConvertLn emits for a line is not judged here (C09/C18 do that)",
+		"a line is what parser.go:121-127 says it is: newline-terminated (one carriage return before the newline belongs to the terminator, the last line may lack the newline), leading spaces dropped, lines shorter than two bytes and lines starting with '#' are not data; every other byte of the line, trailing white space included, reaches the codec",
 		"the codec configuration of each compiler (cdb: serial only; rdb: ranger enabled, no prefix sets, no % output, v2 flag) is replicated in the harness from cdb.go:81-82 and rdb_compiler.go:221-228",
 		"RocksDB and the cgo layer are executed, not modelled; stores are read back with a raw iterator (RocksDB) or a sequential scan of the record area (CDB)",
 		"in the inputs part goroutine schedules are whatever the Go runtime produced in this run; the schedule quantifier of the property is the business of the schedules part (harness/c07_sched)",
